@@ -423,6 +423,8 @@ Definition df_check (c : bool * list Q * list Q * Q * Q) : bool :=
 
 
 def correspond(res):
+    import warnings
+    warnings.simplefilter("ignore")      # scipy.linalg.sqrtm warns on the singular variance matrix of a pure-jump copula driver
     rng = random.Random(res.seed)
     tier = res.tier
     dfs = df_cases(res, rng, tier)
@@ -439,12 +441,17 @@ def correspond(res):
     res.case_lemmas += 3
     if len(groups) < 3:
         res.broke("correspondence", "no cases could be produced for: " + ", ".join(sorted({"single", "coupled", "df"} - {g[0] for g in groups})))
-    bad = coq_bad_indices(PROP, "cases", HEADER, groups, timeout=900)
-    for g, ty, chk, cs in groups:
-        if bad[g]:
-            res.broke(f"correspondence {g}", f"model and implementation differ on {len(bad[g])} of {len(cs)} case(s), first: {cs[bad[g][0]][:2500]}")
-        else:
-            res.case_ok += 1
+    from concurrent.futures import ThreadPoolExecutor
+
+    def work(g):
+        return g, coq_bad_indices(PROP, f"cases_{g[0]}", HEADER, [g], timeout=600)[g[0]]
+
+    with ThreadPoolExecutor(max_workers=3) as ex:
+        for (g, ty, chk, cs), bad in ex.map(work, groups):
+            if bad:
+                res.broke(f"correspondence {g}", f"model and implementation differ on {len(bad)} of {len(cs)} case(s), first: {cs[bad[0]][:2500]}")
+            else:
+                res.case_ok += 1
 
 
 def replay(path):
